@@ -16,3 +16,62 @@ package common
 //@   requires 0 <= i && i < len(s.results) && 0 <= j && j < len(s.results)
 //@   ensures[less-is-total-order] result <==> lessMatch(s.results[i].score, strord(s.results[i].candidateStr), s.results[j].score, strord(s.results[j].candidateStr))
 //@ end
+
+// ---- C17: configuration switches ----
+// handleNotJSONCheckFlag turns the positional switch list into the set of ignored diagnostic types.
+//@ func (*GlobalConfig).handleNotJSONCheckFlag
+//@   props C17
+//@   sweep C01
+//@   requires g.IgnoreErrorTypeMap != nil
+//@   requires[globals-initialised] jsonConfig != nil && GConfig != nil && GConfig.ReferOtherFileMap != nil && GConfig.LuaInMap != nil
+//@   ensures[not-json-mode] !g.ReadJSONFlag
+//@   ensures[master-switch] len(checkFlagList) >= 1 ==> g.showWarnFlag == checkFlagList[0]
+//@   ensures[master-off-ignores-all] len(checkFlagList) >= 1 && !checkFlagList[0] ==> forall(t, 1, 30, has(g.IgnoreErrorTypeMap, t))
+//@   ensures[type-ignored-iff-switch-off] len(checkFlagList) >= 1 && checkFlagList[0] ==>
+//@        forall(t, 1, 30, has(g.IgnoreErrorTypeMap, t) <==> (t > len(checkFlagList) - 1 || !checkFlagList[t]))
+//@   ensures[every-valid-error-rule-compiled] forall(k, 0, len(ignoreFileOrDirErr), regexp_compiles(ignoreFileOrDirErr[k]) ==> has(g.IgnoreErrorFileOrFloderRegexp, ignoreFileOrDirErr[k]))
+//@   loop 2 invariant rangeindex >= -1 && g.IgnoreErrorFileOrFloderRegexp != nil
+//@          && forall(k, 0, rangeindex + 1, regexp_compiles(ignoreFileOrDirErr[k]) ==> has(g.IgnoreErrorFileOrFloderRegexp, ignoreFileOrDirErr[k]))
+//@   loop 3 invariant 1 <= i && i <= 30 && g.IgnoreErrorTypeMap != nil && g.IgnoreErrorTypeMap == old(g.IgnoreErrorTypeMap) && forall(t, 1, i, has(g.IgnoreErrorTypeMap, t))
+//@          && forall(k, 0, len(ignoreFileOrDirErr), regexp_compiles(ignoreFileOrDirErr[k]) ==> has(g.IgnoreErrorFileOrFloderRegexp, ignoreFileOrDirErr[k]))
+//@   loop 4 invariant 1 <= i && i <= 30 && g.IgnoreErrorTypeMap != nil && g.showWarnFlag
+//@          && forall(t, 1, i, has(g.IgnoreErrorTypeMap, t) <==> (t > len(checkFlagList) - 1 || !checkFlagList[t]))
+//@          && forall(t, i, 30, !has(g.IgnoreErrorTypeMap, t))
+//@          && forall(k, 0, len(ignoreFileOrDirErr), regexp_compiles(ignoreFileOrDirErr[k]) ==> has(g.IgnoreErrorFileOrFloderRegexp, ignoreFileOrDirErr[k]))
+//@ end
+
+// IsIgnoreErrorFile is the single choke point every diagnostic passes (FileResult.InsertRelateError).
+//@ func (*GlobalConfig).IsIgnoreErrorFile
+//@   props C17
+//@   sweep C01
+//@   ensures[master-switch-off] !g.showWarnFlag ==> result
+//@   ensures[ignored-type] has(g.IgnoreErrorTypeMap, errType) ==> result
+//@   ensures[nothing-else-ignores] g.showWarnFlag && !has(g.IgnoreErrorTypeMap, errType) && len(g.IgnoreErrorFloderVec) == 0 && len(g.IgnoreErrorFileVec) == 0
+//@        && len(g.IgnoreFileErrTypesMap) == 0 ==> !result
+//@ end
+
+//@ func (*GlobalConfig).IsSpecialCheck
+//@   props C17
+//@   sweep C01
+//@   ensures[gate] result <==> (g.showWarnFlag && (!has(g.IgnoreErrorTypeMap, 2) || !has(g.IgnoreErrorTypeMap, 3) || !has(g.IgnoreErrorTypeMap, 10)
+//@        || !has(g.IgnoreErrorTypeMap, 11) || !has(g.IgnoreErrorTypeMap, 12)))
+//@   loop 0 invariant rangeindex >= -1 && g.showWarnFlag && len(errTypeList) == 5 && errTypeList[0] == 2 && errTypeList[1] == 3 && errTypeList[2] == 10 && errTypeList[3] == 11 && errTypeList[4] == 12
+//@          && forall(k, 0, rangeindex + 1, has(g.IgnoreErrorTypeMap, errTypeList[k]))
+//@ end
+
+// luahelper.json path: the same rule must act the same as through client settings - every valid
+// IgnoreFileErr / IgnoreFileErrTypes pattern gets its compiled entry (IsIgnoreErrorFile silently
+// skips a rule that has none).
+//@ func (*GlobalConfig).ReadConfig
+//@   props C17
+//@   requires g.IgnoreErrorTypeMap != nil
+//@   requires[globals-initialised] jsonConfig != nil && GConfig != nil && GConfig.ReferOtherFileMap != nil && GConfig.LuaInMap != nil
+//@   ensures[json-error-rules-compiled] result == nil && g.ReadJSONFlag ==>
+//@        forall(k, 0, len(jsonConfig.IgnoreFileErr), regexp_compiles(jsonConfig.IgnoreFileErr[k]) ==> has(g.IgnoreErrorFileOrFloderRegexp, jsonConfig.IgnoreFileErr[k]))
+//@   loop range:jsonConfig.IgnoreFileErr invariant rangeindex >= -1 && g.IgnoreErrorFileOrFloderRegexp != nil && g.ReadJSONFlag
+//@        && forall(k, 0, rangeindex + 1, regexp_compiles(jsonConfig.IgnoreFileErr[k]) ==> has(g.IgnoreErrorFileOrFloderRegexp, jsonConfig.IgnoreFileErr[k]))
+//@   loop range:jsonConfig.IgnoreLocalNoUseVars invariant g.ReadJSONFlag
+//@        && forall(k, 0, len(jsonConfig.IgnoreFileErr), regexp_compiles(jsonConfig.IgnoreFileErr[k]) ==> has(g.IgnoreErrorFileOrFloderRegexp, jsonConfig.IgnoreFileErr[k]))
+//@   loop range:jsonConfig.ReferFrameFiles invariant g.ReadJSONFlag
+//@        && forall(k, 0, len(jsonConfig.IgnoreFileErr), regexp_compiles(jsonConfig.IgnoreFileErr[k]) ==> has(g.IgnoreErrorFileOrFloderRegexp, jsonConfig.IgnoreFileErr[k]))
+//@ end
